@@ -1475,7 +1475,7 @@ def probe_operator(op, kind, rng, cls, label, sizeclass, setup):
 
     def P(ok, clause, what, detail=None):
         # memory-layout clauses are keyed without the size configuration (the same 1-d recipes recur in every one)
-        key = ('%s:%s' % (cls, clause)) if ('-layout-' in clause or clause == 'oop-shares-memory') else '%s:%s:%s' % (cls, clause, sizeclass)
+        key = ('%s:%s' % (cls, clause)) if '-layout-' in clause else '%s:%s:%s' % (cls, clause, sizeclass)
         res.append(C.Probe(bool(ok), key, '%s %s: %s' % (tag, sizeclass, what), _snippet(setup, clause), detail))
 
     dom, ran = op.domain, op.range
@@ -1497,8 +1497,11 @@ def probe_operator(op, kind, rng, cls, label, sizeclass, setup):
     if not scalar_dom:
         P(_flat(x).tobytes() == xb, 'x-changed-oop', 'x bit-for-bit unchanged by op(x)')
     if not scalar_dom and not functional:
-        P(not _shares_memory(r1, x), 'oop-shares-memory',
-          'the result of op(x) does not share memory with x (a later in-place change of either would change the other)')
+        # NOT a violation criterion (the property speaks about x being unchanged BY THE CALL, not about the
+        # result being independent of x afterwards): recorded as a statistic, see extra_coverage()
+        ALIASING.setdefault(cls, set())
+        if _shares_memory(r1, x):
+            ALIASING[cls].add(label)
     v1 = np.array([r1]) if functional else np.array(_flat(r1), copy=True)
     # the same call again must give the same values (first-call effects, hidden state)
     try:
@@ -1738,6 +1741,8 @@ def enumerate_classes():
 
 
 COVERAGE = {}
+# class -> recipe labels whose out-of-place result shares memory with x (statistic, not an alarm)
+ALIASING = {}
 # base classes whose `_call` is abstract / delegates to a subclass hook; never instantiated on their own
 ABSTRACT_BASES = ('Functional', 'DiscreteFourierTransformBase', 'FourierTransformBase', 'WaveletTransformBase',
                   'PointwiseInnerBase', 'PointwiseTensorFieldOperator')
@@ -1757,8 +1762,23 @@ def replay_probe(setup, clause):
     return (not bad), [p.what for p in bad]
 
 
+def extra_coverage():
+    """Measurements of the last probes() run that are information, not obligations."""
+    aliasing = {k: sorted(v) for k, v in sorted(ALIASING.items()) if v}
+    return {'classes_total': COVERAGE.get('classes_total'),
+            'classes_probed': len(COVERAGE.get('classes_probed', [])),
+            'abstract_bases': COVERAGE.get('abstract_bases'),
+            'classes_without_recipe': COVERAGE.get('classes_without_recipe'),
+            'recipe_variants_not_buildable': len(COVERAGE.get('recipes_failed_to_build', [])),
+            'shape_configurations': [c for c, _ in CFGS],
+            'operators_whose_result_shares_memory_with_x': aliasing,
+            'note': 'a result aliasing x (RealPart/ImagPart views, FlatteningOperator order C and its inverse) is '
+                    'NOT a C03 violation: the property requires x unchanged by the call, which is checked bit-wise'}
+
+
 def probes(rng, tier):
     import random
+    ALIASING.clear()
     out = []
     seen_classes = set()
     failed_build = []
